@@ -1224,7 +1224,39 @@ func constPoolRules(p *core.Program, r *core.Report, e *engines) {
 	okAppend, okFresh, okStore, okHit := false, false, true, false
 	detail := ""
 	freshVars := map[types.Object]bool{}
-	for _, st := range fd.Body.List {
+	// the miss path may be delegated: `return encode(c.add(value, …))` is read as the helper's
+	// statements followed by `return encode(<what the helper returns>)`, the helper's parameter
+	// that receives the value standing for the value
+	isValue := map[types.Object]bool{param: true}
+	stmts := append([]ast.Stmt{}, fd.Body.List...)
+	if len(stmts) > 0 {
+		if rs, ok := stmts[len(stmts)-1].(*ast.ReturnStmt); ok && len(rs.Results) == 1 {
+			if enc, ok := rs.Results[0].(*ast.CallExpr); ok && eng.CalleeOf(info, enc) == e.em.Encode && len(enc.Args) == 1 {
+				if hc, ok := eng.Unparen(enc.Args[0]).(*ast.CallExpr); ok {
+					if hfn := eng.CalleeOf(info, hc); hfn != nil {
+						if _, hfd := p.DeclOf(hfn); hfd != nil && hfd.Body != nil && hfd.Type.Params != nil && len(hfd.Body.List) > 0 {
+							i := 0
+							for _, f := range hfd.Type.Params.List {
+								for _, nm := range f.Names {
+									if i < len(hc.Args) {
+										if id, ok := eng.Unparen(hc.Args[i]).(*ast.Ident); ok && isValue[info.Uses[id]] {
+											isValue[info.Defs[nm]] = true
+										}
+									}
+									i++
+								}
+							}
+							if hrs, ok := hfd.Body.List[len(hfd.Body.List)-1].(*ast.ReturnStmt); ok && len(hrs.Results) == 1 {
+								stmts = append(stmts[:len(stmts)-1], hfd.Body.List[:len(hfd.Body.List)-1]...)
+								stmts = append(stmts, &ast.ReturnStmt{Return: hrs.Return, Results: []ast.Expr{&ast.CallExpr{Fun: enc.Fun, Args: []ast.Expr{hrs.Results[0]}}}})
+							}
+						}
+					}
+				}
+			}
+		}
+	}
+	for _, st := range stmts {
 		switch s := st.(type) {
 		case *ast.AssignStmt:
 			if len(s.Lhs) != 1 || len(s.Rhs) != 1 {
@@ -1234,7 +1266,7 @@ func constPoolRules(p *core.Program, r *core.Report, e *engines) {
 				c, ok := s.Rhs[0].(*ast.CallExpr)
 				if ok {
 					if id, ok := c.Fun.(*ast.Ident); ok && id.Name == "append" && len(c.Args) == 2 && isPool(c.Args[0]) && !c.Ellipsis.IsValid() {
-						if aid, ok := eng.Unparen(c.Args[1]).(*ast.Ident); ok && info.Uses[aid] == param {
+						if aid, ok := eng.Unparen(c.Args[1]).(*ast.Ident); ok && isValue[info.Uses[aid]] {
 							appended++
 							n = n.Add(eng.AffConst(1), 1)
 							okAppend = true
@@ -1264,14 +1296,14 @@ func constPoolRules(p *core.Program, r *core.Report, e *engines) {
 						if ix, ok := x.Lhs[0].(*ast.IndexExpr); ok && isIndexMap(ix.X) {
 							kid, ok1 := eng.Unparen(ix.Index).(*ast.Ident)
 							vid, ok2 := eng.Unparen(x.Rhs[0]).(*ast.Ident)
-							if !(ok1 && ok2 && info.Uses[kid] == param && freshVars[info.Uses[vid]]) {
+							if !(ok1 && ok2 && isValue[info.Uses[kid]] && freshVars[info.Uses[vid]]) {
 								okStore, detail = false, "the index map is written with something other than (value ↦ index of the element just appended)"
 							}
 						}
 					}
 					if len(x.Lhs) == 2 && len(x.Rhs) == 1 {
 						if ix, ok := eng.Unparen(x.Rhs[0]).(*ast.IndexExpr); ok && isIndexMap(ix.X) {
-							if kid, ok := eng.Unparen(ix.Index).(*ast.Ident); ok && info.Uses[kid] == param && appended == 0 {
+							if kid, ok := eng.Unparen(ix.Index).(*ast.Ident); ok && isValue[info.Uses[kid]] && appended == 0 {
 								okHit = true
 							}
 						}
